@@ -451,7 +451,25 @@ def real_ckpt(res):
 
 
 def overlap(psi1, psi2):
-    return float(abs(psi1.overlap(psi2)) / (psi1.norm * psi2.norm)) if hasattr(psi1, 'overlap') else None
+    """|<1|2>| / sqrt(<1|1><2|2>) by contraction of the tensors (after a truncating group_split the tensors of a
+    state are not exactly canonical, so that <psi|psi> computed this way differs from psi.norm**2)."""
+    if not hasattr(psi1, 'overlap'):
+        return None
+    n1, n2 = abs(psi1.overlap(psi1)), abs(psi2.overlap(psi2))
+    return float(abs(psi1.overlap(psi2)) / np.sqrt(n1 * n2))
+
+
+def group_obs():
+    return jsonable(H.OBS['group'])
+
+
+def psi_grouped_in(ck):
+    """psi.grouped of the states stored in a checkpoint dictionary: [results['psi'], resume_data['psi']]."""
+    out = []
+    for holder in (ck, ck.get('resume_data') or {}):
+        psi = holder.get('psi') if isinstance(holder, dict) else None
+        out.append(None if psi is None else int(getattr(psi, 'grouped', -1)))
+    return out
 
 
 def real_run(p):
@@ -461,21 +479,38 @@ def real_run(p):
     opts = real_options(spec)
     d = tempfile.mkdtemp(prefix='c18-', dir=BASE)
     out = {'spec': spec, 'interrupted': []}
+    H.instrument()
+    clock = H.install_clock(spec['clock']) if spec.get('clock') else None
+
+    def fresh_process():
+        H.reset_counter()
+        H.reset_obs()
+        if clock is not None:
+            clock.reset()
+
     try:
         os.chdir(d)
         # ---- plain run, counting checkpoints
         o = copy.deepcopy(opts)
         o['connect_algorithm_checkpoint'] = [('c18_helpers', 'count_checkpoints', {}, -200)]
-        H.reset_counter()
+        fresh_process()
         sim = SimClass(o)
         with sim:
             plain = sim.run()
         n_ckpt = H._counter['n']
-        plain_psi = plain['psi']
+        plain_psi = sim.psi
         out['plain'] = real_summary(plain)
+        out['plain']['has_psi'] = 'psi' in plain
+        out['plain']['psi_grouped'] = int(plain_psi.grouped)
+        out['plain']['psi_L'] = int(plain_psi.L)
+        out['plain']['group'] = group_obs()
+        out['plain']['saves'] = list(H.OBS['saves'])
         out['n_checkpoints'] = n_ckpt
         on_disk = tenpy.tools.hdf5_io.load('data.' + fmt)
-        out['plain_file_equal'] = real_summary(on_disk) == out['plain']
+        out['plain_file_equal'] = real_summary(on_disk) == real_summary(plain)
+        if 'psi' in on_disk:
+            out['plain_file_overlap'] = overlap(plain_psi, on_disk['psi'])
+        del sim
         modes = p.get('modes', ['listener'])
         which = p.get('checkpoints') or list(range(1, n_ckpt + 1))
         for c in which:
@@ -486,13 +521,13 @@ def real_run(p):
                 o = copy.deepcopy(opts)
                 fs = None
                 if mode == 'listener':
-                    # the process is interrupted right after the save at checkpoint c
+                    # the process is interrupted right after the save_at_checkpoint call of checkpoint c
                     o['connect_algorithm_checkpoint'] = [('c18_helpers', 'interrupt_at_checkpoint', {'at': c}, -200)]
                 else:
-                    # 'write': the process dies inside the write of the save at checkpoint c
-                    # (after `frac` of the bytes); 'rename': it dies right after the rename of that save
+                    # 'write': the process dies inside the write of the first save at or after checkpoint c
+                    # (after half of the bytes); 'rename': it dies right after the rename of that save
                     o['connect_algorithm_checkpoint'] = [('c18_helpers', 'count_checkpoints', {}, 200)]
-                H.reset_counter()
+                fresh_process()
                 sim = SimClass(o)
                 try:
                     if mode == 'listener':
@@ -507,26 +542,42 @@ def real_run(p):
                         rec['error'] = 'run finished although crashed at checkpoint %d' % c
                 except (SimulatedInterrupt, SimulatedCrash):
                     pass
+                except Exception as e:
+                    rec['error'] = 'interrupted run failed: %s: %s | %s' % (type(e).__name__, e, traceback.format_exc()[-800:])
+                rec['saves'] = list(H.OBS['saves'])          # record counts at the completed saves of this process
+                rec['group_first'] = group_obs()
+                del sim
                 st, _, extra = disk_state(d, fmt, real_ckpt, fs.partials if fs else {})
                 rec['disk'] = st
                 ld = choose_load(st)
                 rec['loaded'] = ld
-                if ld is None:
+                if ld is None or 'error' in rec:
                     out['interrupted'].append(rec)
                     continue
                 fn = [f for f, nm in names_for(fmt).items() if nm == ld[0]][0]
                 ck = tenpy.tools.hdf5_io.load(fn)
-                rec['ckpt_measurements'] = len(ck['measurements']['measurement_index'])
+                rec['ckpt_measurements'] = max([len(v) for v in ck.get('measurements', {}).values()] + [0])
+                rec['ckpt_psi_grouped'] = psi_grouped_in(ck)
+                rec['ckpt_has'] = ['psi' in ck, 'resume_data' in ck]
+                del ck
+                fresh_process()
                 try:
                     res = resume_from_checkpoint(filename=fn, update_sim_params={'connect_algorithm_checkpoint': []})
+                    rpsi = H.OBS['sim'].psi
                     rec['resumed'] = real_summary(res)
-                    rec['overlap'] = overlap(plain_psi, res['psi'])
-                    rec['norm_ratio'] = float(res['psi'].norm / plain_psi.norm)
+                    rec['resumed']['has_psi'] = 'psi' in res
+                    rec['resumed']['psi_grouped'] = int(rpsi.grouped)
+                    rec['resumed']['psi_L'] = int(rpsi.L)
+                    rec['overlap'] = overlap(plain_psi, rpsi) if rpsi.L == plain_psi.L else None
+                    rec['norm_ratio'] = float(rpsi.norm / plain_psi.norm)
                     st2, data2, _ = disk_state(d, fmt, real_ckpt, {})
                     rec['disk_after'] = st2
-                    rec['file_equal'] = (data2['out'] is not None and real_summary(data2['out']) == rec['resumed'])
+                    rec['file_equal'] = (data2['out'] is not None and real_summary(data2['out']) == real_summary(res))
+                    if data2['out'] is not None and 'psi' in data2['out']:
+                        rec['file_overlap'] = overlap(plain_psi, data2['out']['psi'])
                 except Exception as e:
                     rec['error'] = 'resume failed: %s: %s | %s' % (type(e).__name__, e, traceback.format_exc()[-800:])
+                rec['group_resume'] = group_obs()
                 out['interrupted'].append(rec)
     finally:
         os.chdir(ORIG_CWD)
@@ -534,16 +585,62 @@ def real_run(p):
     return out
 
 
+# ============================================================================================
+# 3b. the grouping guard of Simulation.group_sites_for_algorithm, called directly
+# ============================================================================================
+
+def group_guard(p):
+    """For each case (L, stack, gs, loaded, to_NN): a simulation object whose psi is a product state already
+    grouped by the factors in `stack`, one after the other (the psi of a checkpoint is grouped once), then group_sites_for_algorithm() with the option
+    group_sites=gs and loaded_from_checkpoint=loaded, then group_split(); the instrumentation records psi.grouped
+    and the lengths of psi and model before / after."""
+    from tenpy.networks.mps import MPS
+    H.instrument()
+    out = []
+    for c in p['cases']:
+        H.reset_obs()
+        r = {'outcome': 'ok'}
+        try:
+            sim = Simulation.__new__(Simulation)
+            sim.loaded_from_checkpoint = bool(c['loaded'])
+            o = dummy_options('pkl', True, 1)
+            del o['output_filename']
+            o['model_params']['L'] = c['L']
+            o['group_sites'] = c['gs']
+            if c.get('to_NN'):
+                o['group_to_NearestNeighborModel'] = True
+            o['algorithm_params'] = {'trunc_params': {'chi_max': 4}}
+            sim.__init__(o, setup_logging=False)
+            sim.init_model()
+            psi = MPS.from_lat_product_state(sim.model.lat, [['up'], ['down']], allow_incommensurate=True)
+            for n in c['stack']:
+                psi.group_sites(n)
+            sim.psi = psi
+            try:
+                sim.group_sites_for_algorithm()
+                r['model_class'] = type(sim.model).__name__
+                r['has_ungrouped'] = hasattr(sim, 'model_ungrouped')
+                sim.group_split()
+            except Exception as e:
+                r['outcome'] = 'raise: %s: %s' % (type(e).__name__, str(e)[:200])
+        except Exception as e:
+            r['outcome'] = 'error: %s: %s | %s' % (type(e).__name__, e, traceback.format_exc()[-600:])
+        r['group'] = group_obs()
+        out.append(r)
+    return out
+
+
 class CheckpointCrash(FaultFS):
     """Crash inside the write ('write': half of the bytes) or right after the rename ('rename') of the
-    save performed at the c-th checkpoint."""
+    first save performed at or after the c-th checkpoint (with save_every_x_seconds=0 that is the save at
+    checkpoint c; otherwise a later checkpoint or the final save)."""
 
     def __init__(self, directory, names, ckpt_of, c, mode):
         super().__init__(directory, names, ckpt_of, None, 0.5)
         self.c, self.mode = c, mode
 
     def _step(self, op):
-        if not self.crashed and H._counter['n'] == self.c:
+        if not self.crashed and H._counter['n'] >= self.c:
             if (self.mode == 'write' and op[0] == 'W') or (self.mode == 'rename' and op[0] == 'W'):
                 self.crashed = True
                 if self.mode == 'rename':
@@ -567,6 +664,8 @@ def main():
             res = fix_names(payload)
         elif kind == 'real':
             res = real_run(payload)
+        elif kind == 'group_guard':
+            res = group_guard(payload)
         else:
             raise ValueError(kind)
     except Exception:
